@@ -3,6 +3,7 @@ package main
 import (
 	"fmt"
 	"go/types"
+	"hash/fnv"
 	"strconv"
 	"strings"
 
@@ -31,14 +32,47 @@ func (in *Interp) blobLen() int {
 
 func (in *Interp) newBlob(v Value) []*Term {
 	id := len(in.opaque) + 1
-	n := in.blobLen()
-	b := &opaqueBlob{id: id, n: n}
+	b := &opaqueBlob{id: id}
 	if iv, ok := v.(Iface); ok {
 		b.typ = iv.t
 		b.val = in.deepCopy(iv.v, map[*Object]*Object{}, map[*MapObj]*MapObj{})
 	} else {
 		in.unsupported("encode of non-interface value")
 	}
+	// Content-addressed bytes: the encoding is a function of the encoded value (an uninterpreted
+	// function per type and shape applied to the value's scalar leaves), so that encoding equal
+	// values twice gives equal bytes (a re-written record compares equal to the old one).
+	var shape strings.Builder
+	var leaves []*Term
+	shape.WriteString(b.typ.String())
+	if in.flattenForCodec(b.val, &shape, &leaves, 0) {
+		key := shape.String()
+		for _, l := range leaves {
+			key += fmt.Sprintf(",%d", l.id)
+		}
+		lens, _ := in.extra["bloblen-memo"].(map[string]int)
+		if lens == nil {
+			lens = map[string]int{}
+			in.extra["bloblen-memo"] = lens
+		}
+		n, ok := lens[key]
+		if !ok {
+			n = in.blobLen()
+			lens[key] = n
+		}
+		b.n = n
+		hsh := fnv.New64a()
+		hsh.Write([]byte(shape.String()))
+		t := in.st.App(fmt.Sprintf("$cbor%d_%x", n, hsh.Sum64()), 8*n, leaves...)
+		in.opaque[fmt.Sprintf("t%d", t.id)] = b
+		bs := make([]*Term, n)
+		for i := range bs {
+			bs[i] = in.st.Extract(t, 8*(n-i)-1, 8*(n-i-1))
+		}
+		return bs
+	}
+	n := in.blobLen()
+	b.n = n
 	in.opaque[strconv.Itoa(id)] = b
 	bs := make([]*Term, n)
 	for i := range bs {
@@ -47,9 +81,120 @@ func (in *Interp) newBlob(v Value) []*Term {
 	return bs
 }
 
+// flattenForCodec appends the structure of v to shape and its scalar leaves to leaves; false when
+// the value has a part whose encoding order is not determined by its structure (maps with more
+// than one entry) or is not a plain data value.
+func (in *Interp) flattenForCodec(v Value, shape *strings.Builder, leaves *[]*Term, depth int) bool {
+	if depth > 40 {
+		return false
+	}
+	switch x := v.(type) {
+	case nil:
+		shape.WriteString("_")
+		return true
+	case *Term:
+		if x.IsConst() {
+			fmt.Fprintf(shape, "c%d:%s;", x.w, x.Big().Text(16))
+		} else {
+			fmt.Fprintf(shape, "t%d;", x.w)
+			*leaves = append(*leaves, x)
+		}
+		return true
+	case *Agg:
+		shape.WriteString("{")
+		for _, e := range x.e {
+			if !in.flattenForCodec(e, shape, leaves, depth+1) {
+				return false
+			}
+		}
+		shape.WriteString("}")
+		return true
+	case Ptr:
+		if x.obj == nil {
+			shape.WriteString("nil;")
+			return true
+		}
+		shape.WriteString("&")
+		return in.flattenForCodec(in.getPath(x.obj.val, x.path), shape, leaves, depth+1)
+	case Slice:
+		if x.IsNil() {
+			shape.WriteString("nil[];")
+			return true
+		}
+		fmt.Fprintf(shape, "[%d]", x.ln)
+		arr, ok := in.getPath(x.arr.obj.val, x.arr.path).(*Agg)
+		if !ok {
+			return x.ln == 0
+		}
+		for i := 0; i < x.ln; i++ {
+			if !in.flattenForCodec(arr.e[x.off+i], shape, leaves, depth+1) {
+				return false
+			}
+		}
+		return true
+	case Str:
+		if x.sym != nil {
+			fmt.Fprintf(shape, "s%d:", len(x.sym))
+			for _, t := range x.sym {
+				if !in.flattenForCodec(t, shape, leaves, depth+1) {
+					return false
+				}
+			}
+			return true
+		}
+		fmt.Fprintf(shape, "s%q;", x.s)
+		return true
+	case Iface:
+		if x.t == nil {
+			shape.WriteString("niliface;")
+			return true
+		}
+		shape.WriteString("<" + x.t.String() + ">")
+		return in.flattenForCodec(x.v, shape, leaves, depth+1)
+	case *MapObj:
+		if x == nil || len(x.ents) == 0 {
+			shape.WriteString("map0;")
+			return true
+		}
+		if len(x.ents) > 1 {
+			return false
+		}
+		shape.WriteString("map1:")
+		return in.flattenForCodec(x.ents[0].k, shape, leaves, depth+1) && in.flattenForCodec(x.ents[0].v, shape, leaves, depth+1)
+	case Tuple:
+		for _, e := range x {
+			if !in.flattenForCodec(e, shape, leaves, depth+1) {
+				return false
+			}
+		}
+		return true
+	}
+	return false
+}
+
 // matchBlob recognises a blob at the start of bs; returns the blob and its length.
 func (in *Interp) matchBlob(bs []*Term) (*opaqueBlob, bool) {
-	if len(bs) == 0 || bs[0].op != OpVar || !strings.HasPrefix(bs[0].name, "$blob") {
+	if len(bs) == 0 {
+		return nil, false
+	}
+	// content-addressed blob: byte i is extract(app, ...) (or the application itself when n == 1)
+	app := bs[0]
+	if app.op == OpExtract {
+		app = app.args[0]
+	}
+	if app.op == OpApp && strings.HasPrefix(app.name, "$cbor") {
+		b, ok := in.opaque[fmt.Sprintf("t%d", app.id)]
+		if !ok || len(bs) < b.n {
+			return nil, false
+		}
+		for i := 0; i < b.n; i++ {
+			if bs[i] != in.st.Extract(app, 8*(b.n-i)-1, 8*(b.n-i-1)) {
+				return nil, false
+			}
+		}
+		return b, true
+	}
+	if bs[0].op != OpVar || !strings.HasPrefix(bs[0].name, "$blob") {
 		return nil, false
 	}
 	rest := bs[0].name[len("$blob"):]
